@@ -341,7 +341,7 @@ class Report:
             if key in seen:
                 continue
             seen.add(key)
-            if printed >= 20:
+            if printed >= int(os.environ.get("VERIF_MAXPRINT", "20")):
                 continue
             h = hashlib.sha1(json.dumps(detail, sort_keys=True, default=str).encode()).hexdigest()[:12]
             path = os.path.join(REPLAYS, "%s-%s.json" % (self.prop, h))
